@@ -21,7 +21,7 @@ func runC03(t *testing.T, c simrt.Chooser, o Opts) *Out {
 		unsolMax:   40,
 		latePct:    20,
 		dupPct:     15,
-		exitDelays: []string{"", "", "50ms", "1s", "3ms"},
+		exitDelays: []string{"", "", "50ms", "1s", "3ms", "2s"},
 		flagIndex:  o.Index, // over a batch of >= 512 runs every TCP flag combination arrives unsolicited
 	}
 	sc := buildPacketScenario(p, o, k)
@@ -31,8 +31,8 @@ func runC03(t *testing.T, c simrt.Chooser, o Opts) *Out {
 		sc.World.OutErrEvery = 2 + p.n("stdouterrevery", 9)
 	}
 	if sc.exitDelay >= 300*time.Millisecond && len(sc.Spec.Ports) <= 200 && p.pct("readerrs", 15) {
-		// a flapping link: 8..30 unknown read errors while replies keep arriving
-		injectReadErrors(sc, 8+p.n("nreaderrs", 23))
+		// a flapping link: unknown read errors (up to 30 with long exit delays) while replies keep arriving
+		injectReadErrors(sc, min(8+p.n("nreaderrs", 23), maxReadErrors(sc.exitDelay)))
 	}
 	out := &Out{Scenario: sc, Stats: map[string]int{}}
 	cr := runPacketScenario(t, c, o, sc)
